@@ -37,6 +37,13 @@ func join(fs ...func()) {
 	wg.Wait()
 }
 
+// closed outside any execution, the way a package initialiser of rewritten code would
+var preClosed = func() chan struct{} {
+	ch := make(chan struct{})
+	vrt.Close(ch)
+	return ch
+}()
+
 var tests = []litmus{
 	{name: "store-buffer (atomics are sequentially consistent)", expect: []string{"r1=0 r2=1", "r1=1 r2=0", "r1=1 r2=1"}, body: func(out *string) {
 		var x, y vatomic.Int64
@@ -112,6 +119,10 @@ var tests = []litmus{
 		gate.Store(true)
 		wg.Wait()
 		*out = fmt.Sprintf("during=%d after=%d", during, vrt.LiveOthers())
+	}},
+	{name: "a channel closed before the execution began is closed inside it", expect: []string{"closed ok=false"}, body: func(out *string) {
+		_, ok := vrt.Recv2(preClosed)
+		*out = fmt.Sprintf("closed ok=%v", ok)
 	}},
 	{name: "cond: wait with the lock held never misses the signal", expect: []string{"woken"}, body: func(out *string) {
 		var mu vsync.Mutex
